@@ -114,6 +114,7 @@ for ci, case in enumerate(job['cases']):
     for k in rng.sample(deep, min(3, len(deep))):
         plans.append(('remove-grandchild', None, k))
         plans.append(('replace-grandchild', None, k))
+        plans.append(('add-grandchild', None, k))          # an element that lives elsewhere in the document offered to the root
     plans.append(('remove-unattached', None, None))
     plans.append(('replace-unattached', None, None))
     plans.append(('add-inadmissible', None, None))
@@ -125,6 +126,7 @@ for ci, case in enumerate(job['cases']):
             under_b = [k for k in idx if desc[k][2] is desc[b][0]]
             if under_b:
                 plans.append(('remove-nephew', a, rng.choice(under_b)))
+                plans.append(('add-nephew', a, rng.choice(under_b)))
     for kind, recv_k, tgt_k in plans:
         rec = {'case': ci, 'kind': kind}
         try:
@@ -143,6 +145,8 @@ for ci, case in enumerate(job['cases']):
                     quiet(lambda: recv.remove(tgt if tgt is not None else extra))
                 elif kind.startswith('replace'):
                     quiet(lambda: recv.replace_child(tgt if tgt is not None else XE.XMLFootnote('x'), extra))
+                elif kind == 'add-grandchild' or kind == 'add-nephew':
+                    quiet(lambda: recv.add_child(tgt))
                 else:
                     quiet(lambda: recv.add_child(extra))
                 rec['raised'] = None
